@@ -59,3 +59,13 @@ def run(F, R):
                             "try_join_all over sibling resolvers: with two failing non-null siblings the single reported error is "
                             "the one that completes first")
     R.floor("R05.3", "try_join_all sites in the executor", n, 1)
+
+    R.rule("R05.4", "error recording is unconditional: ContextBase::add_error pushes on every path (no test of what is already recorded), so which errors "
+                    "survive cannot depend on the order in which siblings fail")
+    ae = F.one(r"async_graphql::context::\{impl#\d+\}::add_error$", kind="fn")
+    ps = ae.calls_to(r"vec::\{impl#\d+\}::push$")
+    rets = ae.exits()
+    nested = F.nested(ae)
+    okp = len(ps) == 1 and all(ae.must_pass([c.bb for c in ps], r) for r in rets) and not nested and not [x for x in ae.calls() if x.callee and re.search(r"::(any|all|contains|find|position|iter)$", x.callee)]
+    R.check(okp, "R05.4", "add_error:always-pushes", ae.where(), "push on every path", "add_error records an error only conditionally (deduplication / filtering): with several failing "
+            "siblings the surviving error depends on which completes first")
